@@ -567,3 +567,17 @@ SPECS += [
                                  "ret": "Bool"}},
          drop_assign=["info", "src_info", "fail_info", "self._input_info", "self._transform"], props=["C07", "C06"]),
 ]
+
+
+# ---- tools/connect_helper.py : how the initial data of an output is published (C06 C04 C08) --------------------------
+# the publications are recorded in a trace (`pushes`): `None` for a static output; the composition's start time and the
+# time of the output's metadata when they differ; the metadata time alone otherwise
+SPECS += [
+    dict(lean="ConnectHelper__push_data", path="tools/connect_helper.py", qual="ConnectHelper._push_data", group="Connect",
+         fields={"data_pushed": NAMED_BOOL, "pushes": "List[Opt[Time]]"}, params={"name": "Obj", "time": "Opt[Time]", "info_time": "Opt[Time]"},
+         ignore_params=["data"], extra_params={"is_static": "Bool"}, ret="Unit", ignore_fields=["_out_data_cache"],
+         consts={"out.is_static": ("is_static", "Bool")},
+         calls={"out.push_data": {"lean": "Py.recordPush", "args": ["self.pushes", 1], "argtypes": ["List[Opt[Time]]", "Opt[Time]"],
+                                  "stmt": True, "updates": ["pushes"]}},
+         drop_assign=["out"], drop_calls=["self._out_data_cache.pop"], props=["C06"]),
+]
